@@ -349,3 +349,203 @@ RF("RF-early-return-style", ALLP, [(DRIVE, '''        if let Err(err) = self.io.
                 Err(Error::Transport(err))
             }
         }''')])
+
+# ---------------------------------------------------------------------------------------------- C04
+M("C04-puback-skipped-when-full", "C04", [(INB, '''                        let action = ControlAction::PubAck { packet_id, reason };
+                        check_control_packet_size(runtime.maximum_packet_size, action)?;
+                        self.outbound.queue_control(action)?;''', '''                        let action = ControlAction::PubAck { packet_id, reason };
+                        check_control_packet_size(runtime.maximum_packet_size, action)?;
+                        if !self.outbound.retained_full() {
+                            self.outbound.queue_control(action)?;
+                        }''')],
+  ["C04/ack/PubAck"])
+M("C04-record-even-if-duplicate", "C04", [(INB, '''                        let reason = if !duplicate {
+                            self.pending_server_packet_ids''', '''                        let reason = if !duplicate || self.pending_server_packet_ids.len() < 2 {
+                            self.pending_server_packet_ids''')],
+  ["C04/once/record-if-new"])
+M("C04-duplicate-delivered", "C04", [(INB, '''                        if duplicate || !reason.success() {''', '''                        if !reason.success() {''')],
+  ["C04/once/deliver-implies-recorded"])
+M("C04-pubcomp-reason-swapped", "C04", [(INB, '''                    self.pending_server_packet_ids.swap_remove(index);
+                    ReasonCode::Success
+                } else {
+                    ReasonCode::PacketIdNotFound
+                };''', '''                    self.pending_server_packet_ids.swap_remove(index);
+                    ReasonCode::PacketIdNotFound
+                } else {
+                    ReasonCode::Success
+                };''')],
+  ["C04/rel/reason-table"])
+M("C04-pubrel-does-not-forget", "C04", [(INB, '''                    self.pending_server_packet_ids.swap_remove(index);
+                    ReasonCode::Success''', '''                    let _ = index;
+                    ReasonCode::Success''')],
+  ["C04/rel/forget"])
+M("C04-puback-wrong-id", "C04", [(INB, '''                        let action = ControlAction::PubAck { packet_id, reason };''', '''                        let action = ControlAction::PubAck {
+                            packet_id: packet_id | 1,
+                            reason,
+                        };''')],
+  ["C04/ack/PubAck-id"])
+M("C04-acks-encoded-in-arena", "C04", [(DRIVE, '''                    let packet = serialize_control_packet(
+                        &mut small_buf,
+                        step.action,''', '''                    let _ = &mut small_buf;
+                    let packet = serialize_control_packet(
+                        data.outbound.scratch_space(),
+                        step.action,''')],
+  ["C04/offarena/serialize_control_packet"])
+M("C04-reset-keeps-pending-ids", "C04", [(STATE, '''        self.outbound.clear();
+        self.pending_server_packet_ids.clear();''', '''        self.outbound.clear();''')],
+  ["C04/reset/clears-pending-ids"])
+M("C04-decode-whole-buffer", "C04", [(INB, '''ReceivedPacket::from_buffer(&buffer[..packet_length])
+            .expect("inbound packet must remain decodable")''', '''ReceivedPacket::from_buffer(&buffer[..packet_length.max(2)])
+            .expect("inbound packet must remain decodable")''')],
+  ["C04/faithful/slice"])
+M("C04-inbound-qos-forced", "C04", [(INB, '''            info.retain,
+            info.qos,
+        )''', '''            info.retain,
+            info.qos.min(crate::QoS::AtLeastOnce),
+        )''')],
+  ["C04/faithful/fields"])
+M("C04-deliver-on-false", "C04", [(INB, '''            Ok(true) => Ok(Some(packet_length)),
+            Ok(false) => Ok(None),''', '''            Ok(true) => Ok(Some(packet_length)),
+            Ok(false) if self.session.data.pending_server_packet_ids.is_full() => Ok(Some(packet_length)),
+            Ok(false) => Ok(None),''')],
+  ["C04/faithful/deliver-only-on-true"])
+M("C04-pubrec-after-deliver-check", "C04", [(INB, '''                        check_control_packet_size(runtime.maximum_packet_size, action)?;
+                        self.outbound.queue_control(action)?;
+                        if duplicate || !reason.success() {''', '''                        check_control_packet_size(runtime.maximum_packet_size, action)?;
+                        if !duplicate {
+                            self.outbound.queue_control(action)?;
+                        }
+                        if duplicate || !reason.success() {''')],
+  ["C04/ack/PubRec"])
+
+# ---------------------------------------------------------------------------------------------- C05
+M("C05-clean-start-always-false-after-first", "C05", [(HS, '''        let clean_start = !self.data.session_present;''', '''        let clean_start = !self.data.session_present && self.data.outbound.is_quiescent();''')],
+  ["C05/wire/clean-start"])
+M("C05-mark-before-properties", "C05", [(HS, '''        let local_quota = self.data.outbound.max_inflight();
+        let mut send_quota = local_quota;''', '''        self.data.mark_session_present();
+        let local_quota = self.data.outbound.max_inflight();
+        let mut send_quota = local_quota;''')],
+  ["C05/mark/after-properties"])
+M("C05-reset-after-validation", "C05", [(HS, '''        let resumed = ack.session_present;
+        if !resumed {
+            debug!("Broker started a fresh session; resetting local session state");
+            self.data.reset();
+        }
+''', '''        let resumed = ack.session_present;
+'''), (HS, '''        self.runtime.session_resumed = resumed;''', '''        if !resumed {
+            debug!("Broker started a fresh session; resetting local session state");
+            self.data.reset();
+        }
+        self.runtime.session_resumed = resumed;''')],
+  ["C05/reset/before-any-failure"])
+M("C05-event-swapped", "C05", [(HS, '''        if resumed {
+            info!("Connected and resumed existing broker session");
+            Ok(ConnectEvent::Reconnected)''', '''        if !resumed {
+            info!("Connected and resumed existing broker session");
+            Ok(ConnectEvent::Reconnected)''')],
+  ["C05/reset/event"])
+M("C05-reset-keeps-generation", "C05", [(STATE, '''        self.generation = self.generation.wrapping_add(1);''', '''        self.generation = self.generation.wrapping_add(0);''')],
+  ["C05/reset/bumps-generation"])
+M("C05-reset-skips-outbound-clear", "C05", [(STATE, '''        self.packet_id = NonZeroU16::new(1).unwrap();
+        self.outbound.clear();''', '''        self.packet_id = NonZeroU16::new(1).unwrap();''')],
+  ["C05/reset/clears-outbound"])
+M("C05-subscribe-id-before-drain", "C05", [(OPS, '''        self.flush_outbound().await?;
+        self.require_retained_slot()?;
+
+        let packet_id = self.session.data.next_packet_id();
+        let (offset, len) = self.session.data.outbound.encode_packet(&Subscribe {''', '''        let packet_id = self.session.data.next_packet_id();
+        self.flush_outbound().await?;
+        self.require_retained_slot()?;
+
+        let (offset, len) = self.session.data.outbound.encode_packet(&Subscribe {''')],
+  ["C05/replay-first/subscribe"])
+M("C05-client-id-from-config-only", "C05", [(HS, '''                    client_id: Utf8String(client_id.as_str()),''', '''                    client_id: Utf8String(if clean_start { client_id.as_str() } else { "" }),''')],
+  ["C05/wire/client-id"])
+
+# ---------------------------------------------------------------------------------------------- C06
+M("C06-quota-on-any-nonzero-pubrec", "C06", [(INB, '''                        if rec.reason.code().failed() {''', '''                        if rec.reason.code() != ReasonCode::Success {''')],
+  ["C06/inc/only-on-failure/PubRec"])
+M("C06-pubcomp-no-quota", "C06", [(INB, '''                runtime.send_quota = runtime
+                    .send_quota
+                    .saturating_add(1)
+                    .min(runtime.max_send_quota);
+                debug!("Processed PUBCOMP packet_id={=u16}", comp.packet_id);''', '''                debug!("Processed PUBCOMP packet_id={=u16}", comp.packet_id);''')],
+  ["C06/inc/complete/PubComp"])
+M("C06-puback-quota-before-stale-check", "C06", [(INB, '''                if !self.outbound.ack_packet(ack.packet_id) {
+                    debug!("Ignoring stale PUBACK for packet id {=u16}", ack.packet_id);
+                    return Ok(false);
+                }
+                runtime.send_quota = runtime
+                    .send_quota
+                    .saturating_add(1)
+                    .min(runtime.max_send_quota);''', '''                runtime.send_quota = runtime
+                    .send_quota
+                    .saturating_add(1)
+                    .min(runtime.max_send_quota);
+                if !self.outbound.ack_packet(ack.packet_id) {
+                    debug!("Ignoring stale PUBACK for packet id {=u16}", ack.packet_id);
+                    return Ok(false);
+                }''')],
+  ["C06/inc/after-removal/PubAck"])
+M("C06-resume-ignores-inflight", "C06", [(HS, '''        self.runtime.send_quota =
+            send_quota.saturating_sub(self.data.outbound.inflight_publishes());''', '''        self.runtime.send_quota = send_quota;''')],
+  ["C06/resume/depends-on-inflight"])
+M("C06-no-clamp", "C06", [(HS, '''                        send_quota = max.min(local_quota);
+                        max_send_quota = max.min(local_quota);''', '''                        send_quota = max.min(local_quota);
+                        max_send_quota = max;''')],
+  ["C06/init/max-value"])
+M("C06-dec-before-retain", "C06", [(OPS, '''            self.session
+                .data
+                .outbound
+                .retain_packet(packet_id, offset, len)?;
+            self.session.runtime.send_quota = self.session.runtime.send_quota.saturating_sub(1);''', '''            self.session.runtime.send_quota = self.session.runtime.send_quota.saturating_sub(1);
+            self.session
+                .data
+                .outbound
+                .retain_packet(packet_id, offset, len)?;''')],
+  ["C06/dec/after-enqueue"])
+M("C06-dec-after-flush", "C06", [(OPS, '''            self.session.runtime.send_quota = self.session.runtime.send_quota.saturating_sub(1);
+            debug!(''', '''            debug!('''), (OPS, '''            self.flush_outbound().await?;
+            let kind = if qos == QoS::ExactlyOnce {''', '''            self.flush_outbound().await?;
+            self.session.runtime.send_quota = self.session.runtime.send_quota.saturating_sub(1);
+            let kind = if qos == QoS::ExactlyOnce {''')],
+  ["C06/dec/atomic"])
+M("C06-gate-ignores-quota", "C06", [(SMOD, '''            self.runtime.send_quota != 0 && self.data.outbound.can_retain()''', '''            self.data.outbound.can_retain()''')],
+  ["C06/gate/reads-quota"])
+M("C06-suback-returns-quota", "C06", [(INB, '''                debug!("Processed SUBACK packet_id={=u16}", ack.packet_id);''', '''                debug!("Processed SUBACK packet_id={=u16}", ack.packet_id);
+                runtime.send_quota = runtime
+                    .send_quota
+                    .saturating_add(1)
+                    .min(runtime.max_send_quota);''')],
+  ["C06/inc/arm/SubAck"])
+M("C06-zero-receive-max-accepted", "C06", [(HS, '''                        if max == 0 {
+                            return Err(PeerError::InvalidPacket);
+                        }
+''', '''''')],
+  ["C06/init/zero-rejected"])
+M("C06-inflight-counts-only-retained", "C06", [(OUT, '''        (publishes + self.pending_release.len()) as u16''', '''        publishes as u16''')],
+  ["C06/resume/depends-on-inflight"])
+
+# ---------------------------------------------------------------------------------------------- C07
+M("C07-no-freshness-check", "C07", [(STATE, '''            if !self.outbound.has_retained(packet_id)
+                && !self.outbound.has_pending_release(packet_id)
+            {
+                return packet_id;
+            }''', '''            if !self.outbound.has_retained(packet_id) {
+                return packet_id;
+            }''')],
+  ["C07/fresh/pending_release"])
+M("C07-freshness-checks-next-id", "C07", [(STATE, '''            if !self.outbound.has_retained(packet_id)
+                && !self.outbound.has_pending_release(packet_id)''', '''            if !self.outbound.has_retained(self.packet_id.get())
+                && !self.outbound.has_pending_release(packet_id)''')],
+  ["C07/fresh/retained"])
+M("C07-handle-records-other-id", "C07", [(OPS, '''        Ok(Op::new(
+            OpKind::Unsubscribe,
+            packet_id,''', '''        Ok(Op::new(
+            OpKind::Unsubscribe,
+            packet_id.wrapping_sub(1).max(1),''')],
+  ["C07/src/unsubscribe/handle"])
+M("C07-publish-retains-under-zero", "C07", [(OPS, '''                .retain_packet(packet_id, offset, len)?;
+            self.session.runtime.send_quota''', '''                .retain_packet(packet_id & 0x7fff, offset, len)?;
+            self.session.runtime.send_quota''')],
+  ["C07/src/publish/enqueue"])
